@@ -3,7 +3,7 @@ import itertools
 
 import flow
 import values
-from lib import (World, is_call, callee_name, tag_of, uncast, iter_elem, acceptance_mismatch, straight_line, TAG)
+from lib import (World, is_call, callee_name, tag_of, uncast, iter_elem, acceptance_mismatch, rejection_witness, rel_holds, straight_line, TAG)
 from framework import spec
 from mir import strip_generics, AnchorMissing
 from values import Ev, fmt
@@ -15,9 +15,14 @@ accepted by Tag::from_wire (every root-to-leaf path of its MIR byte decision tre
 (2) Ascending order enforced: no path reaches a push onto RtMessage.tags (add_field) or onto the decoder's tag list except through the false
 edge of `tag <= last` or the empty-list edge; tags/values are private and written only by add_field, clear, the constructors and the documented
 escape hatch.  (3) Decoder acceptance conditions: at the points where the decoder commits (first read, dispatch on the tag count,
-single-tag slice, offset push, value slice) the conjunction of branch facts over the checked quantities has the same truth
-table as the reference decoder's condition (len >= 4 and len % 4 == 0; count 0 / 1 / 2..=1024; len >= 8; offset % 4 == 0 and offset <= len;
-start <= end <= len); the number of error-producing sites per function equals the reference instance.
+single-tag slice, offset push, value slice) the conjunction of branch facts over the checked quantities is compared with the reference decoder's
+condition as a three-valued truth table (must accept / must reject / decided by another guard): len >= 4 and len % 4 == 0; count 0 / 1 / 2..=18 reach their
+arms (where counts above 18 are refused is the code's choice: 19 strictly ascending known tags do not exist); len >= 8; unaligned offsets refused at the
+push, offsets inside the value area kept (offsets beyond it may be refused there or by the value-bounds guard); start <= end <= len at the slice.
+(3b) Every rejection is one the reference makes too: for each error-producing site of from_bytes / single_tag_message / multi_tag_message, per incoming
+branch edge, the path condition over (len, count, offset, start, end) is unsatisfiable together with the reference's acceptance condition on the grid, or
+the guard is a recognised idiom (short Cursor read, tag not above the previous tag, offset below the previous offset), or the error is propagated from
+Tag::from_wire / add_field / a Cursor read; anything else is reported as a rejection the reference does not make.
 (4) Writer/reader agreement: encode writes count, offsets, tags, values in that order; every byteorder read/write in message.rs and request.rs is
 LittleEndian; encode_framed writes magic, u32 LE length of the encoding, the encoding; request.rs compares buf[0..8] with the same magic constant,
 reads the length from buf[8..12] and parses buf[12..].
@@ -27,6 +32,15 @@ TRUSTED = ["byteorder ReadBytesExt/WriteBytesExt", "std io::Cursor/Read", "deriv
 EXHAUSTIVE = True
 
 MSG = "roughenough::message::RtMessage"
+
+
+def previous_of(ev, t, cur):
+    """Is t the loop-carried 'previous value' of cur: a merge whose inputs are the constant 0 and cur itself (possibly cast)?"""
+    t = uncast(t)
+    if not (isinstance(t, tuple) and t and t[0] == "phi"):
+        return False
+    args = [uncast(a) for a in t[1]]
+    return len(args) >= 2 and all(a == ("int", 0) or a == cur or (isinstance(a, tuple) and a and a[0] == "loopvar") for a in args) and any(a == cur or (isinstance(a, tuple) and a and a[0] == "loopvar") for a in args)
 
 
 def from_wire_language(ctx, fn, ev):
@@ -251,8 +265,9 @@ def run(ctx):
                              lambda len: len >= 4 and len % 4 == 0)
     ctx.check("decoder-guards", "from_bytes/length", mm is None, "count is read only if len >= 4 and len % 4 == 0", "from_bytes length guard differs from the reference: %s" % mm, fb.loc(reads[0]))
     N = ("vfield", bev.call_term(reads[0]), "Continue", 0)
-    grid_n = [{"n": n} for n in list(range(0, 6)) + [1023, 1024, 1025, 2048, 65535, 2 ** 32 - 1]]
-    disp = {"single_tag_message": lambda n: n == 1, "multi_tag_message": lambda n: 2 <= n <= 1024, "with_capacity": lambda n: n == 0}
+    grid_n = [{"n": n} for n in list(range(0, 6)) + [17, 18, 19, 1023, 1024, 1025, 2048, 65535, 2 ** 32 - 1]]
+    # more than 18 strictly ascending known tags cannot exist: where counts above 18 are refused is the code's choice (don't care)
+    disp = {"single_tag_message": lambda n: n == 1, "multi_tag_message": lambda n: (2 <= n) if n <= 18 else None, "with_capacity": lambda n: n == 0}
     seen = set()
     for bb, t in fb.calls():
         name = callee_name(t["fn"].get("path", ""))
@@ -282,9 +297,13 @@ def run(ctx):
     offp = [(bb, mev.call_args(bb)) for bb, t in mt.calls() if callee_name(t["fn"].get("path", "")) == "push" and "usize" in t["arg_tys"][1]]
     for bb, a in offp:
         off = uncast(a[1])
-        grid = [{"off": o, "len": l} for l in (8, 12, 16, 1024) for o in (0, 1, 2, 3, 4, 5, 8, l - 4, l - 1, l, l + 1, l + 4, 2 ** 32 - 4)]
-        mm = acceptance_mismatch(flow.rel_facts_at(MIN, bb), {"off": off, "len": MLEN}, grid, lambda off, len: off % 4 == 0 and off <= len)
-        ctx.check("decoder-guards", "multi_tag_message/offset", mm is None, "an offset is kept only if offset % 4 == 0 and offset <= len",
+        grid = [{"off": o, "len": l, "n": n} for n in (2, 3, 18) for l in (8 * n, 8 * n + 4, 8 * n + 8, 1024)
+                for o in (0, 1, 2, 3, 4, 5, 8, l - 8 * n - 4, l - 8 * n, l - 8 * n + 4, l - 4, l - 1, l, l + 1, l + 4, 2 ** 32 - 4) if o >= 0]
+        # unaligned offsets must be refused here (nothing later looks at alignment); aligned offsets inside the value area must be kept; aligned
+        # offsets beyond it are refused here or by the value-bounds guard below (don't care)
+        mm = acceptance_mismatch(flow.rel_facts_at(MIN, bb), {"off": off, "len": MLEN, "n": ("param", mt.path, 1)}, grid,
+                                 lambda off, len, n: False if off % 4 else (True if off <= len - 8 * n else None))
+        ctx.check("decoder-guards", "multi_tag_message/offset", mm is None, "an offset is kept only if offset % 4 == 0, and always if it lies inside the value area",
                   "offset guard differs from the reference: %s" % mm, mt.loc(bb))
         isread = is_call(values.strip_payload(off), "read_u32") or is_call(W.expand(values.strip_payload(off)), "read_u32")
         ctx.check("decoder-guards", "multi_tag_message/offset-is-the-value-read", isread, "the offset kept is the u32 just read", "offset pushed is %s" % fmt(off), mt.loc(bb))
@@ -308,21 +327,96 @@ def run(ctx):
         okr = any(r[0] == "Pred" and r[1] == "is_ok" and is_call(r[2]) and callee_name(r[2][1]) == "read_exact" for r in rels)
         ctx.check("decoder-guards", "multi_tag_message/tag-bytes-read-completely", okr and len(rex) == 1, "a tag is decoded only after read_exact succeeded",
                   "tag bytes are used although read_exact may have failed", mt.loc(bb))
-    # number of error-producing sites (reference instance)
-    ref_err = {fb.path: 4, st.path: 4, mt.path: 8}
-    for fn in (fb, st, mt):
-        e = W.ev(fn.path)
-        n = 0
+    # every rejection is one the reference decoder makes too (3b)
+    s_t = e_t = None
+    for bb in vs:
+        rng = mev.call_args(bb)[1]
+        if rng[0] == "agg" and len(rng[2]) == 2:
+            s_t, e_t = rng[2]
+    OFF = uncast(offp[0][1][1]) if offp else None
+    if s_t is None or OFF is None:
+        raise AnchorMissing("offset push and value slice in multi_tag_message")
+    NT = ("param", mt.path, 1)
+    plan = [
+        (fb, bev, IN, {"len": LEN, "n": N},
+         [{"len": l, "n": n} for l in list(range(0, 41)) + [144, 152, 8192, 65536] for n in (0, 1, 2, 3, 5, 17, 18, 19, 1024, 1025, 65535, 2 ** 32 - 1)],
+         lambda len, n: len >= 4 and len % 4 == 0 and (n == 0 or (n == 1 and len >= 8) or (2 <= n <= 18 and len >= 8 * n))),
+        (st, sev, SIN, {"len": ("len", ("param", st.path, 1))}, [{"len": l} for l in range(0, 41)], lambda len: len >= 8 and len % 4 == 0),
+        (mt, mev, MIN, {"n": NT, "len": MLEN, "off": OFF, "s": s_t, "e": e_t},
+         [{"n": n, "len": l, "off": o, "s": s_, "e": e_} for n in (2, 3, 18) for l in (8 * n, 8 * n + 4, 8 * n + 64)
+          for o in (0, 1, 2, 4, l - 8 * n - 4, l - 8 * n, l - 8 * n + 4, l - 4, l, l + 4, 2 ** 32 - 4) if o >= 0
+          for s_ in (8 * n, 8 * n + 4, l - 4, l, l + 4) for e_ in (8 * n, 8 * n + 4, l - 4, l, l + 4)],
+         lambda n, len, off, s, e: len % 4 == 0 and len >= 8 * n and off % 4 == 0 and off <= len - 8 * n and s <= e <= len),
+    ]
+    SHORT_READ = ("read_u32", "read_exact", "read_to_end", "read_u64", "read_u16", "read_u8", "read")
+    PROPAGATED = {"from_wire": "unknown tag (Tag::from_wire, table checked by rule 1)", "add_field": "tag order (add_field, guard checked by rule 2)",
+                  "single_tag_message": "the single-tag decoder's own rejections", "multi_tag_message": "the multi-tag decoder's own rejections"}
+    nrej = 0
+    for (fn, e, FIN, roles, grid, consistent) in plan:
+        ef = flow.edge_facts(fn, e)
+        ordn = {}
         for bl in fn.blocks:
             if bl.idx not in fn.reachable():
                 continue
-            for s in bl.stmts:
-                if s["k"] == "assign" and s["dst"]["l"] == 0 and s["rv"]["k"] == "agg" and s["rv"].get("vname") == "Err":
-                    n += 1
+            kinds = []
+            for st_ in bl.stmts:
+                if st_["k"] == "assign" and st_["dst"]["l"] == 0 and st_["rv"]["k"] == "agg" and st_["rv"].get("vname") == "Err":
+                    kinds.append("err")
             if bl.term["k"] == "call" and callee_name(bl.term["fn"].get("path", "")) == "from_residual":
-                n += 1
-        ctx.check("decoder-guards", "%s/error-site-count" % fn.path.split("::")[-1], n == ref_err[fn.path], "%d error-producing sites (reference instance)" % n,
-                  "%s has %d error-producing sites, the reference instance has %d: a rejection rule was added or removed" % (fn.path, n, ref_err[fn.path]), ctx.loc(fn))
+                kinds.append("try")
+            for kind in kinds:
+                nrej += 1
+                short = fn.path.split("::")[-1]
+                if kind == "try":
+                    src = values.strip_payload(e.call_args(bl.idx)[0])
+                    while isinstance(src, tuple) and src[0] in ("vfield", "field"):
+                        src = src[1]
+                    nm = callee_name(src[1]) if is_call(src) else "?"
+                    why = "input ends before the bytes being read (Cursor read)" if nm in SHORT_READ else PROPAGATED.get(nm)
+                    k = "%s/propagates/%s" % (short, nm)
+                    ordn[k] = ordn.get(k, 0) + 1
+                    ctx.check("rejections-justified", k + ("#%d" % ordn[k] if ordn[k] > 1 else ""), why is not None, "propagates %s" % why,
+                              "%s propagates an error from %s, which is not one of the reference decoder's rejection causes known to the checker" % (short, nm),
+                              fn.loc(bl.idx))
+                    continue
+                verdicts = []
+                for (p_, rels) in flow.path_conditions(fn, e, FIN, bl.idx, ef):
+                    # the guard proper: the facts of the branch edge that enters this block
+                    guard = []
+                    if p_ is not None:
+                        for f in ef.get((p_, bl.idx), ()):
+                            guard.extend(flow.relational(f))
+                    idiom = None
+                    unknown = []
+                    for r in (guard or rels):
+                        if r[0] == "NotPred" and r[1] == "is_ok" and is_call(r[2]) and callee_name(r[2][1]) in SHORT_READ:
+                            idiom = "short read"
+                        elif r[0] in ("Le", "Lt", "Eq") and values.contains(r[1], lambda x: is_call(x, "Tag::from_wire")) \
+                                and values.contains(r[2], lambda x: is_call(x) and callee_name(x[1]) == "last"):
+                            idiom = "tag not above the previous tag (guard checked by rule 2)"
+                        elif r[0] == "Lt" and "off" in roles and uncast(r[1]) == roles["off"] and previous_of(e, r[2], roles["off"]):
+                            idiom = "offset below the previous offset (the reference requires monotone offsets)"
+                        elif r[0] in ("Lt", "Le", "Eq", "Ne") and guard:
+                            env0 = {roles[k_]: 0 for k_ in roles}
+                            if rel_holds(r, env0) is None:
+                                unknown.append("%s(%s, %s)" % (r[0], fmt(r[1])[:50], fmt(r[2])[:50]))
+                    wit, used = rejection_witness(rels, roles, grid, consistent)
+                    if idiom:
+                        verdicts.append((True, idiom))
+                    elif unknown:
+                        verdicts.append((False, "its condition %s is over quantities the checker does not know" % ", ".join(unknown)))
+                    elif used and wit is None:
+                        verdicts.append((True, "path condition excludes every input the reference accepts"))
+                    elif used:
+                        verdicts.append((False, "taken for %s, which the reference decoder accepts" % wit))
+                    else:
+                        verdicts.append((False, "its condition is over quantities the checker does not know"))
+                k = "%s/rejects" % short
+                ordn[k] = ordn.get(k, 0) + 1
+                bad = [v for v in verdicts if not v[0]]
+                ctx.check("rejections-justified", "%s#%d" % (k, ordn[k]), not bad, "; ".join(sorted({v[1] for v in verdicts})),
+                          "%s returns an error that the reference decoder does not: %s" % (short, "; ".join(v[1] for v in bad)), fn.loc(bl.idx))
+    ctx.floor("rejections-justified", nrej, 13, "error-producing sites in the three decoder functions (13 rejection causes are necessary; 16 today)")
 
     # ------------------------------------------------------------------ (4) writer / reader agreement
     nle = 0
